@@ -462,7 +462,7 @@ impl TypedStmt {
                 let mut collection = env.get(identifier).unwrap();
                 let mut accessed = vec![];
                 enum Assign {
-                    Array(Vec<usize>, usize, Vec<usize>),
+                    Array(Vec<usize>, usize, usize, Vec<usize>),
                     Tuple(Vec<usize>, usize, usize),
                 }
                 for (access, _) in accessors {
@@ -523,7 +523,12 @@ impl TypedStmt {
                                 // an element of a valid size (even though it will not be used)
                                 collection = vec![0; elem_bits]
                             }
-                            accessed.push(Assign::Array(array_before_access, elem_bits, index));
+                            accessed.push(Assign::Array(
+                                array_before_access,
+                                elem_bits,
+                                num_elems,
+                                index,
+                            ));
                         }
                         Accessor::TupleAccess { tuple_ty, index } => {
                             let tuple_before_access = collection.clone();
@@ -586,8 +591,7 @@ impl TypedStmt {
                 }
                 for assign in accessed.into_iter().rev() {
                     match assign {
-                        Assign::Array(mut array, elem_bits, mut index) => {
-                            let size = array.len() / elem_bits;
+                        Assign::Array(mut array, elem_bits, size, mut index) => {
                             let index_bits = Type::Unsigned(UnsignedNumType::Usize)
                                 .size_in_bits_for_defs(prg, circuit.const_sizes());
                             extend_to_bits(
